@@ -123,7 +123,7 @@ def lit_int(v):
 
 def clone_val(v):
     k = v.kind
-    if k in ("bv", "bool", "opaque", "str", "ref", "vacant", "box"):
+    if k in ("bv", "bool", "opaque", "str", "ref", "vacant", "box", "slice", "takeparser"):
         return v
     if k == "u8buf":
         return Val("u8buf", items=list(v.items))
@@ -520,6 +520,11 @@ class Interp:
         m = re.match(r"^((?:\w+::)*[A-Z]\w*)\((.*)\)$", rhs)
         if m:       # tuple struct
             return Val("struct", name=m.group(1), fields=[self.operand(x, fr) for x in split_top(m.group(2))])
+        if re.match(r"^(?:\w+::)*[A-Z]\w*$", rhs):      # unit variant of an enum we do not model (error kinds)
+            return OPAQUE("unit_variant:" + rhs)
+        m = re.match(r"^((?:\w+::)+)<.*>::([A-Z]\w*)\((.*)\)$", rhs)
+        if m:       # generic enum we do not model (nom::Err::<..>::Failure(e)): opaque payload holder
+            return mk_enum(m.group(1).rstrip(":"), m.group(2), None, [self.operand(x, fr) for x in split_top(m.group(3))])
         raise Unsupported("rvalue " + rhs)
 
     def fold(self, v):
@@ -674,6 +679,8 @@ class Interp:
             for _tok, ln in v.chunks:
                 e = "(bvadd %s %s)" % (e, ln)
             return self.fold(BV(64, e))
+        if v.kind == "slice":
+            return BV(64, v.len)
         if v.kind == "u8buf":
             n, sym = 0, []
             for x in v.items:
@@ -910,6 +917,12 @@ class Interp:
             return a[0]
         if re.search(r"core::str::<impl str>::len$|slice::<impl \[u8\]>::len$", c):
             return self.length_of(D(a[0]))
+        m = re.search(r"^<(u\d+|usize) as Ord>::(min|max)$|^core::cmp::(min|max)::<(u\d+|usize)>$", c)
+        if m:
+            op = m.group(2) or m.group(3)
+            x, y = a[0], a[1]
+            cmpo = "bvule" if op == "min" else "bvuge"
+            return self.fold(BV(x.w, "(ite (%s %s %s) %s %s)" % (cmpo, x.s, y.s, x.s, y.s)))
         # ---- the `?` operator
         if re.search(r" as Try>::branch$", c):
             v = a[0]
